@@ -305,6 +305,16 @@ def stack_has(ev, qualname):
     return any(f.qualname == qualname for f in ev.stack)
 
 
+def within(ev, qualname, barring=()):
+    """ev happens in `qualname` or in a helper it calls, but not below a call of one of the (differently purposed)
+    functions named in `barring` made from there."""
+    names = [f.qualname for f in ev.stack]
+    if qualname not in names:
+        return False
+    i = len(names) - 1 - names[::-1].index(qualname)
+    return not any(f.name in barring for f in ev.stack[i + 1:])
+
+
 def pretty(t):
     return T.pretty(t)
 
@@ -651,4 +661,70 @@ def comp_view(t):
                 k = sl[2]
                 n = k if not (k.is_const() and k.const_value() < 0) else atom(("call", "len", (s,), ())) + k
         return e2, s, n
+    return None
+
+
+POS = atom(("sym", "position"))
+
+
+def comp_elem(t, j=POS, depth=0):
+    """(element at position j, length) of a one-generator comprehension over range(...) / a sequence, with every positional
+    read of another such comprehension inside the element resolved the same way:
+        [f(i) for i in range(a, b)]      -> f(a + j), b - a
+        [g(e[i]) for i in range(n)], e = [h(k) for k in range(1, n + 1)]  -> g(h(1 + j)), n
+    None when t is not of that form."""
+    a = t.single_atom() if isinstance(t, T.R) else None
+    if a is None or a[0] != "comp" or len(a[2]) != 1 or len(a[3]) != 1 or a[4] or depth > 4:
+        return None
+    elt, it = a[2][0], a[3][0]
+    ia = it.single_atom()
+    if ia is None or ia[0] != "call" or ia[1] != "range" or not (1 <= len(ia[2]) <= 2) or ia[3]:
+        return None
+    lo, hi = (const(0), ia[2][0]) if len(ia[2]) == 1 else (ia[2][0], ia[2][1])
+    inner_lids = {x[1] for x in T.walk(it) if x[0] == "idx"}
+    lids = {x[1] for x in T.walk(elt) if x[0] == "idx"} - inner_lids
+    nested = {x[1] for sub_ in T.walk(elt) if sub_[0] == "comp" for x in T.walk(atom(sub_)) if x[0] == "idx"}
+    own = lids - nested
+    if len(own) > 1:
+        return None
+    lid = next(iter(own)) if own else None
+    e2 = T.subst(elt, lambda z: (lo + j) if z[0] == "idx" and z[1] == lid else None)
+
+    def resolve(z):
+        if z[0] == "sub":
+            r = comp_elem(z[1], z[2], depth + 1)
+            if r is not None:
+                return r[0]
+        return None
+    e2 = T.subst(e2, resolve)
+    return e2, hi - lo
+
+
+def collected(tr, t):
+    """(element, count, event) when t is a list holding one value per repetition of `for _ in range(count)`, written either as
+    a loop appending to an initially empty list or as a comprehension; None otherwise."""
+    a = t.single_atom() if isinstance(t, T.R) else None
+    if a is None:
+        return None
+
+    def rng(it):
+        ia = it.single_atom() if isinstance(it, T.R) else None
+        if ia is not None and ia[0] == "call" and ia[1] == "range" and len(ia[2]) == 1 and not ia[3]:
+            return ia[2][0]
+        return None
+    if a[0] == "comp" and a[1] == "list" and len(a[2]) == 1 and len(a[3]) == 1 and not a[4]:
+        n = rng(a[3][0])
+        return (a[2][0], n, None) if n is not None else None
+    if a[0] == "loopvar" and isinstance(a[2], str) and a[2].startswith("$") and a[1] in tr.loops:
+        L = tr.loops[a[1]]
+        name = a[2][1:]
+        n = rng(L["iter"])
+        ap = [e for e in tr.of("localmut") if e.name == name and e.how == "method:append" and any(
+            (p.cond.single_atom() or ("",))[:2] == ("inloop", a[1]) for p in e.pc)]
+        if n is None or len(ap) != 1 or L["pre"].locs.get(name) != atom(("list", ())):
+            return None
+        own = [p for p in ap[0].pc if p.func is ap[0].pc[-1].func]
+        if (ap[0].pc[-1].cond.single_atom() or ("",))[0] != "inloop":
+            return None  # a guarded append does not happen once per repetition
+        return ap[0].value.single_atom()[1][0], n, ap[0]
     return None
